@@ -640,7 +640,18 @@ impl PathRouter {
                     // TODO: should we warn the user about this?
                     continue;
                 } else {
-                    unreachable!()
+                    // The path we derived from the prefix is not a valid route path.
+                    // E.g. `/{id}.json`: a catch-all parameter can't follow another parameter
+                    // in the same path segment.
+                    let error = anyhow!(
+                        "I can't register a fallback handler for all incoming requests with a path that begins in `{path_prefix}`.\n\
+                        I would need to register a route for `{fallback_path}`, but that's not a valid route path: {e}."
+                    );
+                    let diagnostic = CompilerDiagnostic::builder(error).help(format!(
+                        "Change `{path_prefix}`, the path prefix of the nested blueprint, or remove its fallback handler."
+                    ));
+                    diagnostics.push(diagnostic.build());
+                    continue;
                 }
             }
 
